@@ -37,8 +37,10 @@ class SgraphFromSelectorsTripleYielder(BaseTriplesYielder):
         for a_triple in self._yield_relevant_direct_triples(target_nodes, sgraph):
             yield a_triple
         if self._inverse_paths:
+            direct_subjects = set(target_nodes)  # their triples have already been yielded
             for a_triple in self._yield_relevant_inverse_triples(target_nodes, sgraph):
-                yield a_triple
+                if a_triple[0].iri not in direct_subjects:
+                    yield a_triple
 
     def _yield_relevant_direct_triples(self, target_nodes, sgraph):
         for s, p, o in sgraph.yield_p_o_triples_of_target_nodes(target_nodes=target_nodes,
